@@ -69,6 +69,13 @@ Theorem C12_guard_separation : forall c pre t1 id1 r mid t2 id2 post s,
   t1 + o_guard c <= t2.
 Proof. exact guard_separation. Qed.
 
+(* 'start' mode: every event starts its own run - each accepted put is started exactly once and
+   nothing else is (the acceptor's time check makes "at once" part of every accepted history) *)
+Theorem C12_start_mode_every_event_runs : forall c xs s,
+  o_mode c = MStart -> orun c ostate0 xs = Some s -> quiescent s = true ->
+  forall id, cnt id (starts_of xs) = cnt id (puts_of xs) /\ (cnt id (puts_of xs) <= 1)%nat.
+Proof. exact start_mode_every_event_runs. Qed.
+
 (* non-vacuity: cancel mode, the second put cancels the first run; guard time 100 ms *)
 Example C12_nonvacuous :
   let c := {| o_mode := MCancel; o_guard := 100000 |} in
@@ -88,3 +95,4 @@ Print Assumptions C12_wait_runs_every_event_in_order.
 Print Assumptions C12_cancel_most_recent_completes.
 Print Assumptions C12_output_counts_runs.
 Print Assumptions C12_guard_separation.
+Print Assumptions C12_start_mode_every_event_runs.
